@@ -627,7 +627,7 @@ def main():
     for rec in recs:
         seg = segs.get(rec["seg"])
         # ids unique across the three packages (replay files are named by id)
-        cid = {"dhcpd": 1000, "filtering": 2000, "home": 3000}.get(a.pkg, 0) + rec["seg"]
+        cid = {"dhcpd": 1000, "filtering": 2000, "home": 3000, "rulelist": 4000}.get(a.pkg, 0) + rec["seg"]
         if only >= 0 and cid != only:
             continue
         if seg is None:
